@@ -3,6 +3,7 @@ package e2
 import (
 	"fmt"
 	"gitee.com/xuesongtao/protoc-go-valid/valid"
+	"math/rand"
 	"sort"
 	"strings"
 
@@ -40,14 +41,15 @@ type handed struct {
 }
 
 type clientState struct {
-	recs     []CallRec
-	handed   []handed
-	mismatch *CallRec
-	mutated  string
-	mutCall  Call
-	changed  *handed
-	tagsSeen map[int]map[string]bool
-	skipped  int
+	recs       []CallRec
+	handed     []handed
+	mismatch   *CallRec
+	mutated    string
+	mutCall    Call
+	changed    *handed
+	tagsSeen   map[int]map[string]bool
+	skipped    int
+	unrecorded int // long histories: calls executed and judged after the first 2000, not kept
 }
 
 var theOracle *Oracle
@@ -70,6 +72,7 @@ func classFor(prop string) string {
 
 // Run executes one plan and judges it.
 func Run(p *Plan, ch simsync.Chooser) *Outcome {
+	rand.Seed(1) // the global generator of math/rand restarts with every run: a library that draws from it replays
 	out := &Outcome{Probes: detsim.Counter{}, Faults: detsim.Counter{}, Counters: detsim.Counter{}}
 	RegisterGlobals()
 	orc := oracle()
@@ -85,8 +88,12 @@ func Run(p *Plan, ch simsync.Chooser) *Outcome {
 			registers = registers || cl.Entry == ERegister
 		}
 	}
+	calls := make([][]Call, len(p.Clients)) // what each client executes (Repeat unrolled)
 	for c := range p.Clients {
-		refs[c] = make([]refT, len(p.Clients[c]))
+		calls[c] = p.expanded(c)
+	}
+	for c := range p.Clients {
+		refs[c] = make([]refT, len(calls[c]))
 		if registers {
 			// one brand-new reference process per registration epoch (see Oracle.Epochs)
 			for i, r := range orc.Epochs(p.Clients[c]) {
@@ -95,7 +102,7 @@ func Run(p *Plan, ch simsync.Chooser) *Outcome {
 			out.Counters.Add("histories_with_global_registrations", 1)
 			continue
 		}
-		for i, cl := range p.Clients[c] {
+		for i, cl := range calls[c] {
 			canon, un := orc.Ref(cl)
 			refs[c][i] = refT{canon, un}
 		}
@@ -172,7 +179,8 @@ func Run(p *Plan, ch simsync.Chooser) *Outcome {
 				}
 				return true
 			}
-			for i, cl := range p.Clients[c] {
+			long := len(calls[c]) > 5000
+			for i, cl := range calls[c] {
 				if strings.HasPrefix(refs[c][i].canon, "panic:") {
 					st.skipped++ // whether an input crashes is not the subject here (C13)
 					continue
@@ -185,8 +193,12 @@ func Run(p *Plan, ch simsync.Chooser) *Outcome {
 				if res.Unordered || refs[c][i].unordered {
 					rec.Got = sortClauses(res.Canon)
 				}
-				st.recs = append(st.recs, rec)
-				if cl.IsStruct() {
+				if !long || len(st.recs) < 2000 {
+					st.recs = append(st.recs, rec)
+				} else {
+					st.unrecorded++
+				}
+				if cl.IsStruct() && !cl.TagSeq {
 					m := st.tagsSeen[cl.Type]
 					if m == nil {
 						m = map[string]bool{}
@@ -272,6 +284,7 @@ func Run(p *Plan, ch simsync.Chooser) *Outcome {
 			h = detsim.HashAdd(h, detsim.Hash64(st.recs[i].Got)^st.recs[i].Return)
 			nrec++
 		}
+		nrec += st.unrecorded
 		out.Counters.Add("calls_skipped_solo_panic", int64(st.skipped))
 	}
 	out.ResultHash = h
@@ -322,6 +335,11 @@ func Run(p *Plan, ch simsync.Chooser) *Outcome {
 	out.Faults.Add("F9_preemptions", int64(res.Preempt))
 	out.Faults.Add("F10_pyield_switches", int64(res.PYieldSwitch))
 	out.Faults.Add("F11_stall_steps", int64(res.StallSteps))
+	out.Faults.Add("F14_clock_leaps", int64(res.ClockJumps))
+	out.Faults.Add("F14_clock_equal_readings", int64(res.ClockTies))
+	out.Counters.Add("clock_readings", int64(res.ClockReads))
+	out.Counters.Add("sleeps", int64(res.Sleeps))
+	out.Counters.Add("simulated_clock_us", res.SimNanos/1000)
 	out.Probes.Add("pool_object_crossed_clients", int64(res.PoolCross))
 	out.Probes.Add("pool_recycled_object", int64(res.PoolGetHit))
 	out.Probes.Add("pool_double_put", int64(res.PoolDouble))
